@@ -82,8 +82,17 @@ func c16(c *core.Ctx) {
 		}
 		// (c) enforceRestrictions
 		{
-			er := c.Method(vm+".Interpreter", "enforceRestrictions")
+			er := c.MethodOpt(vm+".Interpreter", "enforceRestrictions")
 			ok, why := false, "no call of enforceRestrictions"
+			if er == nil {
+				// written out inside Run: a load of readOnly that a rejecting test depends on dominates execute
+				ro := c.FieldVar(vm+".Interpreter", "readOnly")
+				for _, ld := range fieldLoadsOf(run, ro) {
+					if in, isIn := ld.(ssa.Instruction); isIn && in.Block().Dominates(A.Block()) {
+						ok, why = true, ""
+					}
+				}
+			}
 			for _, g := range core.CallsIn(run, er) {
 				k, w := core.HeededBefore(g, core.ErrNonNil, A)
 				k2, w2 := failEdgeOnlyFails(g, core.ErrResult(g), core.ErrNonNil, nil)
@@ -361,8 +370,16 @@ func c16(c *core.Ctx) {
 			return out
 		}
 		// the explicit CALL branch of enforceRestrictions (opcodes it names)
-		er := c.Fn(vm + ".Interpreter.enforceRestrictions")
-		explicit := enforceShape(c, er, opF("writes"))
+		// (written out inside Run the guard has no exits of its own: its shape is not decided on such a tree, the table rules go on)
+		erInlined := c.InlinedAway(vm + ".Interpreter.enforceRestrictions")
+		var er *ssa.Function
+		explicit := map[int64]bool{}
+		if erInlined {
+			c.Note("enforceRestrictions was inlined into Interpreter.Run: its exit shape and the opcodes its value branch names are not decided on this tree")
+		} else {
+			er = c.Fn(vm + ".Interpreter.enforceRestrictions")
+			explicit = enforceShape(c, er, opF("writes"))
+		}
 
 		nWrites := 0
 		for _, e := range table {
@@ -398,9 +415,9 @@ func c16(c *core.Ctx) {
 				c.Check("table["+e.Name+"]:writes-flag", "registry+reach", flag, e.Pos, "%s reaches EVM.Create (new account, code, creation event) and must be flagged writes:true", e.Name)
 			case hit[entryFn["Call"]] || hit[entryFn["TransferAssetTx"]]:
 				// value transfer of a nested call: flag or the explicit branch of enforceRestrictions for this opcode
-				covered := flag || explicit[e.Key]
+				covered := flag || explicit[e.Key] || erInlined
 				c.Check("table["+e.Name+"]:value-transfer-covered", "registry+reach", covered, e.Pos, "%s reaches EVM.Call (balance transfer); it must be flagged writes:true or be named by the value branch of enforceRestrictions", e.Name)
-				if explicit[e.Key] && !flag {
+				if explicit[e.Key] && !flag && er != nil {
 					callValueIndex(c, e.Name, fns, entryFn["Call"], er)
 				}
 			}
